@@ -8,6 +8,13 @@ COMMON_TRUST = [
 ]
 
 PROPS = {
+    'C12': dict(
+        units=['reqresp'], level='proof',
+        not_covered=[
+            'the Interceptor itself is an arbitrary relation (any function of the request); the inner service is seen through a ghost log of the requests it was called with (A-tower-01)',
+            'ResponseBody::poll_frame (Empty => no frames, Wrap => inner frames) is not yet under contract',
+            'InterceptorLayer / generated client-server wiring that installs the InterceptedService',
+        ]),
     'C04': dict(
         units=['status'], level='proof',
         not_covered=[
@@ -26,9 +33,9 @@ PROPS = {
             'the composition "encoder trace then decoder trace" is stated per call (enc_step / M1,P1,N1 step clauses) plus the spec-level lemmas lemma_parse_wire and lemma_parse_append; the induction over whole poll traces is not yet mechanised',
         ]),
     'C03': dict(
-        units=['wire', 'encode'], level='proof',
+        units=['wire', 'encode', 'status', 'reqresp'], level='proof',
         not_covered=[
-            'request/response head construction (prepare_request, map_response, Status::into_http) is not yet under contract in this build',
+            'client prepare_request / server map_response glue is not yet under contract in this build (Status::into_http, Response::into_http, Request::into_http are)',
             'that compress() uses the coder named in grpc-encoding (FFI)', 'HTTP/2 serialisation of heads and trailers (hyper/h2)',
         ]),
     'C06': dict(
